@@ -213,7 +213,7 @@ fn main() {
                     }
                 }
                 "determinism" => {
-                    let n: u64 = args.get(3).and_then(|s| s.parse().ok()).unwrap_or(600);
+                    let n: u64 = args.get(3).and_then(|s| s.parse().ok()).unwrap_or(3000);
                     let exe = std::env::current_exe().unwrap();
                     let mut bad = 0;
                     for prop in ["C04", "C10", "C11", "C12", "C15", "C16"] {
